@@ -58,10 +58,24 @@ def systematic():
     """every type constructor at every position, typeless errors, dashes / upper case, keywords and generator locals as field names"""
     out = []
     e = ("S", [])
-    for t in G.enum_types(1):
+    def mentions(t, name):
+        if t[0] == "N":
+            return t[1] == name
+        if t[0] in "AQD":
+            return mentions(t[1], name)
+        if t[0] == "S":
+            return any(mentions(ft, name) for _, ft in t[1])
+        return False
+
+    for t in G.enum_types(1) + [("Q", ("S", [("c", ("i",))])), ("A", ("Q", ("S", [("c", ("s",))]))), ("Q", ("A", ("S", [("c", ("b",))]))), ("Q", ("E", ["a", "b"])),
+                                ("D", ("Q", ("S", [("c", ("N", "T"))])))]:
         if t == ("N", "T"):
             continue
-        out.append(("a.b", "", [("T", "T", "", t), ("M", "M", "", e, e)]))
+        if not mentions(t, "T"):
+            out.append(("a.b", "", [("T", "T", "", t), ("M", "M", "", e, e)]))
+        else:
+            # a type may not contain itself by value: reference a second alias instead
+            out.append(("a.b", "", [("T", "T", "", ("S", [("k", ("i",))])), ("T", "U", "", t), ("M", "M", "", e, e)]))
         out.append(("a.b", "", [("M", "M", "", ("S", [("x", t)]), ("S", [("y", t)]))]))
         out.append(("a.b", "", [("M", "M", "", e, e), ("X", "E", "", ("S", [("z", t)]))]))
         out.append(("a.b", "", [("T", "T", "", ("S", [("n", ("A", ("S", [("w", t)])))])), ("M", "M", "", ("S", [("p", ("N", "T"))]), ("S", [("q", ("Q", ("N", "T")))]))]))
